@@ -1,6 +1,11 @@
 import Log4rsModel.Literals.Spec
+/-
+Helper lemmas for C20 (size and interval literals): Rust string functions on `List Char`, the byte
+slicing of the visitors, the unit tables against the statement's `unitExp` / `unitOf`, the
+executable reader `readLit` against the relations `SizeLit` / `IntervalLit`.
+-/
 namespace Log4rs.Literals
-open Log4rs.Str
+open Log4rs.Str Log4rs
 
 theorem digit_not_ws (c : Char) (h : isAsciiDigit c = true) : isWhitespace c = false := by
   simp only [isAsciiDigit, Bool.and_eq_true, decide_eq_true_eq] at h
@@ -209,20 +214,221 @@ theorem unit_word {α} (table : List (List Char × α))
     rw [← hl, ← heq]
     exact List.mem_map_of_mem hc
 
-end Log4rs.Literals
 
-namespace Log4rs.Literals
-open Log4rs.Str
+/-! ### numbers -/
 
-theorem denote_unit {α} (table : List (List Char × α))
-    (hself : ∀ e ∈ table, lookupUnit table e.1 = some e.2)
-    (hlow : ∀ e ∈ table, e.1 ≠ [] ∧ ∀ c ∈ e.1, isLowerAlpha c = true)
-    (e : List Char × α) (he : e ∈ table) (ds ws u ws' : List Char)
-    (hne : ds ≠ []) (hds : ∀ c ∈ ds, isAsciiDigit c = true)
-    (hws : ∀ c ∈ ws, isWhitespace c = true) (hws' : ∀ c ∈ ws', isWhitespace c = true)
-    (hu : eqIgnoreAsciiCase u e.1 = true) :
-    denote table (ds ++ (ws ++ (u ++ ws'))) = some (digitsVal ds, some e.2) := by
-  obtain ⟨hl, hune, hualpha⟩ := unit_word table hself hlow e he u hu
+theorem digitsVal_eq (ds : List Char) : digitsVal ds = Nat.ofDigitChars 10 ds 0 := by
+  unfold digitsVal Nat.ofDigitChars digitVal
+  congr 1
+  funext acc c
+  omega
+
+/-! ### byte offsets and slicing -/
+
+def byteLen : List Char → Nat
+  | [] => 0
+  | c :: cs => (utf8Char c).length + byteLen cs
+
+theorem byteLen_eq (l : List Char) : byteLen l = (utf8 l).length := by
+  induction l with
+  | nil => rfl
+  | cons c cs ih => simp [byteLen, utf8_cons, ih]
+
+/-- `find` returns the byte length of the longest prefix on which the predicate fails -/
+theorem findByte_eq (q : Char → Bool) (v : List Char) (off : Nat) :
+    findByte (fun c => !q c) v off =
+      if v.dropWhile q = [] then none else some (off + byteLen (v.takeWhile q)) := by
+  induction v generalizing off with
+  | nil => simp [findByte]
+  | cons c cs ih =>
+    by_cases hc : q c = true
+    · simp only [findByte, hc, Bool.not_true, Bool.false_eq_true, if_false, List.dropWhile_cons_of_pos,
+        List.takeWhile_cons_of_pos, byteLen]
+      rw [ih]
+      split <;> simp [Nat.add_assoc]
+    · have hc' : q c = false := by simpa using hc
+      simp [findByte, hc', byteLen]
+
+theorem splitAtByte_zero (v : List Char) : splitAtByte v 0 = some ([], v) := by
+  cases v <;> simp [splitAtByte]
+
+/-- slicing at the byte length of a prefix succeeds and gives the two halves -/
+theorem splitAtByte_append (a b : List Char) : splitAtByte (a ++ b) (byteLen a) = some (a, b) := by
+  induction a with
+  | nil => simp [byteLen, splitAtByte_zero]
+  | cons c t ih =>
+    have hpos := (utf8Char_length c).1
+    obtain ⟨n, hn⟩ : ∃ n, (utf8Char c).length + byteLen t = n + 1 := ⟨(utf8Char c).length + byteLen t - 1, by omega⟩
+    simp only [byteLen, List.cons_append, hn, splitAtByte]
+    have hle : (utf8Char c).length ≤ n + 1 := by omega
+    have hsub : n + 1 - (utf8Char c).length = byteLen t := by omega
+    simp [hle, hsub, ih]
+
+/-- the split of the visitors: never a panic, and it is the longest digit prefix and the rest -/
+theorem splitNumberUnit_eq (v : List Char) :
+    splitNumberUnit v =
+      .ok (if v.dropWhile isAsciiDigit = [] then (trim v, none)
+           else (trim (v.takeWhile isAsciiDigit), some (trim (v.dropWhile isAsciiDigit)))) := by
+  unfold splitNumberUnit
+  rw [findByte_eq isAsciiDigit v 0]
+  by_cases h : v.dropWhile isAsciiDigit = []
+  · simp [h]
+  · simp only [h, if_false, Nat.zero_add]
+    have := splitAtByte_append (v.takeWhile isAsciiDigit) (v.dropWhile isAsciiDigit)
+    rw [take_drop_while] at this
+    rw [this]
+
+/-! ### the statement's unit words -/
+
+def sizeWords : List (List Char × Nat) :=
+  [(['b'],0),(['k','b'],1),(['k','i','b'],1),(['m','b'],2),(['m','i','b'],2),(['g','b'],3),
+   (['g','i','b'],3),(['t','b'],4),(['t','i','b'],4)]
+
+theorem prefixExp_some (p : Char) (k : Nat) (h : prefixExp p = some k) :
+    (p = 'k' ∧ k = 1) ∨ (p = 'm' ∧ k = 2) ∨ (p = 'g' ∧ k = 3) ∨ (p = 't' ∧ k = 4) := by
+  unfold prefixExp at h
+  split at h
+  · simp at h; simp_all
+  · split at h
+    · simp at h; simp_all
+    · split at h
+      · simp at h; simp_all
+      · split at h
+        · simp at h; simp_all
+        · simp at h
+
+theorem unitExp_words (w : List Char) (k : Nat) (h : unitExp w = some k) : (w, k) ∈ sizeWords := by
+  unfold unitExp at h
+  split at h
+  · split at h
+    · simp at h; subst_vars; decide
+    · simp at h
+  · split at h
+    · rcases prefixExp_some _ _ h with ⟨rfl, rfl⟩ | ⟨rfl, rfl⟩ | ⟨rfl, rfl⟩ | ⟨rfl, rfl⟩ <;> subst_vars <;> decide
+    · simp at h
+  · split at h
+    · rename_i hc
+      obtain ⟨rfl, rfl⟩ := hc
+      rcases prefixExp_some _ _ h with ⟨rfl, rfl⟩ | ⟨rfl, rfl⟩ | ⟨rfl, rfl⟩ | ⟨rfl, rfl⟩ <;> decide
+    · simp at h
+  · simp at h
+
+theorem sizeWords_exp : ∀ e ∈ sizeWords, unitExp e.1 = some e.2 := by decide
+theorem sizeWords_lower : ∀ e ∈ sizeWords, e.1 ≠ [] ∧ ∀ c ∈ e.1, isLowerAlpha c = true := by decide
+theorem sizeWords_lookup : ∀ e ∈ sizeWords, lookupUnit sizeUnitTable e.1 = some (1024 ^ e.2) := by decide
+theorem sizeTable_exp : ∀ e ∈ sizeUnitTable, (unitExp e.1).isSome = true := by decide
+
+def timeWords : List (List Char × TUnit) :=
+  [ (['s','e','c','o','n','d'], .second), (['s','e','c','o','n','d','s'], .second),
+    (['m','i','n','u','t','e'], .minute), (['m','i','n','u','t','e','s'], .minute),
+    (['h','o','u','r'], .hour), (['h','o','u','r','s'], .hour),
+    (['d','a','y'], .day), (['d','a','y','s'], .day),
+    (['w','e','e','k'], .week), (['w','e','e','k','s'], .week),
+    (['m','o','n','t','h'], .month), (['m','o','n','t','h','s'], .month),
+    (['y','e','a','r'], .year), (['y','e','a','r','s'], .year) ]
+
+theorem unitOf_words (w : List Char) (t : TUnit) (h : unitOf w = some t) : (w, t) ∈ timeWords := by
+  unfold unitOf at h
+  have := List.find?_some h
+  simp only [decide_eq_true_eq] at this
+  rcases this with rfl | rfl <;> cases t <;> decide
+
+theorem timeWords_unit : ∀ e ∈ timeWords, unitOf e.1 = some e.2 := by decide
+theorem timeWords_lower : ∀ e ∈ timeWords, e.1 ≠ [] ∧ ∀ c ∈ e.1, isLowerAlpha c = true := by decide
+theorem timeWords_lookup : ∀ e ∈ timeWords, lookupUnit timeUnitTable e.1 = some e.2 := by decide
+theorem timeTable_unit : ∀ e ∈ timeUnitTable, (unitOf e.1).isSome = true := by decide
+
+/-- generic form of the two unit theorems: a case-folding table whose keys are lower-case words agrees
+with a function `f` on lower-cased words as soon as it does so on a list of words covering both -/
+theorem lookup_eq_of_words {α β} (table : List (List Char × α)) (words : List (List Char × β))
+    (f : List Char → Option β) (g : β → α)
+    (hf : ∀ w b, f w = some b → (w, b) ∈ words)
+    (hwl : ∀ e ∈ words, e.1 ≠ [] ∧ ∀ c ∈ e.1, isLowerAlpha c = true)
+    (hwt : ∀ e ∈ words, lookupUnit table e.1 = some (g e.2))
+    (htl : ∀ e ∈ table, e.1 ≠ [] ∧ ∀ c ∈ e.1, isLowerAlpha c = true)
+    (htf : ∀ e ∈ table, (f e.1).isSome = true)
+    (u : List Char) : lookupUnit table u = (f (u.map toAsciiLower)).map g := by
+  cases hfu : f (u.map toAsciiLower) with
+  | some b =>
+    have hm := hf _ _ hfu
+    have hl := map_lower_of_lower _ (hwl _ hm).2
+    have : lookupUnit table u = lookupUnit table (u.map toAsciiLower) :=
+      lookupUnit_congr table u _ hl.symm
+    rw [this]
+    simpa using hwt _ hm
+  | none =>
+    cases hl : lookupUnit table u with
+    | none => rfl
+    | some a =>
+      exfalso
+      obtain ⟨e, he, _, heq⟩ := lookupUnit_mem _ _ _ hl
+      have h1 : u.map toAsciiLower = e.1 := by
+        have := map_lower_of_lower e.1 (htl e he).2
+        simpa [eqIgnoreAsciiCase, this] using heq
+      have hb := htf e he
+      rw [h1] at hfu
+      simp [hfu] at hb
+
+theorem size_units (u : List Char) :
+    lookupUnit sizeUnitTable u = (unitExp (u.map toAsciiLower)).map (fun k => 1024 ^ k) :=
+  lookup_eq_of_words sizeUnitTable sizeWords unitExp (fun k => 1024 ^ k) unitExp_words sizeWords_lower
+    sizeWords_lookup sizeUnit_lower sizeTable_exp u
+
+theorem interval_units (u : List Char) :
+    lookupUnit timeUnitTable u = unitOf (u.map toAsciiLower) := by
+  have := lookup_eq_of_words timeUnitTable timeWords unitOf id unitOf_words timeWords_lower
+    (by simpa using timeWords_lookup) timeUnit_lower timeTable_unit u
+  simpa using this
+
+/-! ### the executable reader against the relations -/
+
+theorem leadDigits_eq (s : List Char) :
+    leadDigits s = (s.takeWhile isAsciiDigit, s.dropWhile isAsciiDigit) := by
+  induction s with
+  | nil => rfl
+  | cons c cs ih =>
+    by_cases hc : isAsciiDigit c = true
+    · simp [leadDigits, hc, ih]
+    · have hc' : isAsciiDigit c = false := by simpa using hc
+      simp [leadDigits, hc']
+
+theorem readLit_eq {α} (f : List Char → Option α) (s : List Char) :
+    readLit f s =
+      if s.takeWhile isAsciiDigit = [] then none
+      else if s.dropWhile isAsciiDigit = [] then some (digitsVal (s.takeWhile isAsciiDigit), none)
+      else match f ((trim (s.dropWhile isAsciiDigit)).map toAsciiLower) with
+        | some a => some (digitsVal (s.takeWhile isAsciiDigit), some a)
+        | none => none := by
+  unfold readLit
+  rw [leadDigits_eq]
+  cases h1 : s.takeWhile isAsciiDigit with
+  | nil => simp
+  | cons a t =>
+    cases h2 : s.dropWhile isAsciiDigit with
+    | nil => simp
+    | cons b r => cases hf : f ((trim (b :: r)).map toAsciiLower) <;> simp [hf]
+
+/-- a word on which `f` (one of `unitExp`, `unitOf`) is defined after lower-casing consists of ASCII letters -/
+theorem word_alpha {β} (words : List (List Char × β)) (f : List Char → Option β)
+    (hf : ∀ w b, f w = some b → (w, b) ∈ words)
+    (hwl : ∀ e ∈ words, e.1 ≠ [] ∧ ∀ c ∈ e.1, isLowerAlpha c = true)
+    (u : List Char) (b : β) (h : f (u.map toAsciiLower) = some b) :
+    u ≠ [] ∧ ∀ c ∈ u, isAsciiAlpha c = true := by
+  have hm := hf _ _ h
+  obtain ⟨hne, hlow⟩ := hwl _ hm
+  refine ⟨?_, ?_⟩
+  · intro hn; subst hn; exact hne rfl
+  · intro c hc
+    apply lower_alpha
+    exact hlow _ (List.mem_map_of_mem hc)
+
+theorem readLit_unit {β} (words : List (List Char × β)) (f : List Char → Option β)
+    (hf : ∀ w b, f w = some b → (w, b) ∈ words)
+    (hwl : ∀ e ∈ words, e.1 ≠ [] ∧ ∀ c ∈ e.1, isLowerAlpha c = true)
+    (ds ws u ws' : List Char) (b : β)
+    (hds : Digits ds) (hws : AllWs ws) (hws' : AllWs ws') (hu : f (u.map toAsciiLower) = some b) :
+    readLit f (ds ++ (ws ++ (u ++ ws'))) = some (digitsVal ds, some b) := by
+  obtain ⟨hune, hualpha⟩ := word_alpha words f hf hwl u b hu
   have hrest : ws ++ (u ++ ws') = [] ∨
       ∃ c t, ws ++ (u ++ ws') = c :: t ∧ isAsciiDigit c = false := by
     right
@@ -232,52 +438,155 @@ theorem denote_unit {α} (table : List (List Char × α))
       | nil => exact absurd rfl hune
       | cons a t => exact ⟨a, t ++ ws', rfl, alpha_not_digit a (hualpha a (by simp))⟩
     | cons a t => exact ⟨a, t ++ (u ++ ws'), rfl, ws_not_digit a (hws a (by simp))⟩
-  obtain ⟨ht, hd⟩ := takeWhile_append isAsciiDigit ds _ hds hrest
+  obtain ⟨ht, hd⟩ := takeWhile_append isAsciiDigit ds _ hds.2 hrest
   have htrim := trim_word ws u ws' hws hws' hune (fun c hc => alpha_not_ws c (hualpha c hc))
-  have hrne : (ws ++ (u ++ ws')).isEmpty = false := by
+  have hrne : ws ++ (u ++ ws') ≠ [] := by
     cases ws <;> cases u <;> simp_all
-  have hdne : ds.isEmpty = false := by cases ds <;> simp_all
-  simp only [denote, ht, hd, htrim, hl, hrne, hdne]
-  simp
+  rw [readLit_eq, ht, hd, htrim, hu]
+  simp [hds.1, hrne]
 
-theorem denote_bare {α} (table : List (List Char × α)) (ds : List Char)
-    (hne : ds ≠ []) (hds : ∀ c ∈ ds, isAsciiDigit c = true) :
-    denote table ds = some (digitsVal ds, none) := by
-  obtain ⟨ht, hd⟩ := takeWhile_append isAsciiDigit ds [] hds (Or.inl rfl)
+theorem readLit_bare {α} (f : List Char → Option α) (ds : List Char) (hds : Digits ds) :
+    readLit f ds = some (digitsVal ds, none) := by
+  obtain ⟨ht, hd⟩ := takeWhile_append isAsciiDigit ds [] hds.2 (Or.inl rfl)
   simp only [List.append_nil] at ht hd
-  have hdne : ds.isEmpty = false := by cases ds <;> simp_all
-  simp [denote, ht, hd, hdne]
+  rw [readLit_eq, ht, hd]
+  simp [hds.1]
 
-/-- anything the reading accepts starts with a digit and, if a unit is present, the unit word
-(after trimming) equals a table entry up to ASCII case -/
-theorem denote_some {α} (table : List (List Char × α)) (s : List Char) (n : Nat) (o : Option α)
-    (h : denote table s = some (n, o)) :
-    ∃ ds rest, s = ds ++ rest ∧ ds ≠ [] ∧ (∀ c ∈ ds, isAsciiDigit c = true) ∧ n = digitsVal ds ∧
-      ((rest = [] ∧ o = none) ∨
-       (∃ e ∈ table, o = some e.2 ∧ eqIgnoreAsciiCase (trim rest) e.1 = true)) := by
-  simp only [denote] at h
-  by_cases h1 : (s.takeWhile isAsciiDigit).isEmpty = true
+/-- every text is leading white space, its trimmed core, trailing white space -/
+theorem trim_decomp (r : List Char) :
+    ∃ ws ws', r = ws ++ (trim r ++ ws') ∧ AllWs ws ∧ AllWs ws' := by
+  refine ⟨r.takeWhile isWhitespace, ((r.dropWhile isWhitespace).reverse.takeWhile isWhitespace).reverse, ?_,
+    takeWhile_all _ _, ?_⟩
+  · have h1 := take_drop_while isWhitespace r
+    have h2 := take_drop_while isWhitespace (r.dropWhile isWhitespace).reverse
+    have h3 : r.dropWhile isWhitespace =
+        ((r.dropWhile isWhitespace).reverse.dropWhile isWhitespace).reverse ++
+          ((r.dropWhile isWhitespace).reverse.takeWhile isWhitespace).reverse := by
+      rw [← List.reverse_append, h2, List.reverse_reverse]
+    unfold trim trimEnd trimStart
+    rw [← h3, h1]
+  · intro c hc
+    exact takeWhile_all isWhitespace _ c (by simpa using hc)
+
+/-- anything the reader accepts is the longest digit prefix followed by nothing, or by a remainder
+whose trimmed, lower-cased form `f` knows -/
+theorem readLit_some {α} (f : List Char → Option α) (s : List Char) (n : Nat) (o : Option α)
+    (h : readLit f s = some (n, o)) :
+    Digits (s.takeWhile isAsciiDigit) ∧ n = digitsVal (s.takeWhile isAsciiDigit) ∧
+      ((s.dropWhile isAsciiDigit = [] ∧ o = none) ∨
+       (s.dropWhile isAsciiDigit ≠ [] ∧ ∃ a, o = some a ∧
+          f ((trim (s.dropWhile isAsciiDigit)).map toAsciiLower) = some a)) := by
+  rw [readLit_eq] at h
+  by_cases h1 : s.takeWhile isAsciiDigit = []
   · simp [h1] at h
-  · simp only [h1, if_false, Bool.false_eq_true] at h
-    refine ⟨s.takeWhile isAsciiDigit, s.dropWhile isAsciiDigit,
-      (take_drop_while _ s).symm, by simpa using h1, takeWhile_all _ s, ?_, ?_⟩
-    · by_cases h2 : (s.dropWhile isAsciiDigit).isEmpty = true
-      · simp [h2] at h; exact h.1.symm
-      · simp only [h2, if_false, Bool.false_eq_true] at h
-        cases hl : lookupUnit table (trim (s.dropWhile isAsciiDigit)) with
-        | none => simp [hl] at h
-        | some a => simp [hl] at h; exact h.1.symm
-    · by_cases h2 : (s.dropWhile isAsciiDigit).isEmpty = true
-      · left
-        simp [h2] at h
-        exact ⟨by simpa using h2, h.2.symm⟩
-      · right
-        simp only [h2, if_false, Bool.false_eq_true] at h
-        cases hl : lookupUnit table (trim (s.dropWhile isAsciiDigit)) with
-        | none => simp [hl] at h
-        | some a =>
-          simp [hl] at h
-          obtain ⟨e, hemem, he2, heq⟩ := lookupUnit_mem _ _ _ hl
-          exact ⟨e, hemem, by rw [← h.2, he2], heq⟩
+  · simp only [h1, if_false] at h
+    refine ⟨⟨h1, takeWhile_all _ s⟩, ?_⟩
+    by_cases h2 : s.dropWhile isAsciiDigit = []
+    · simp only [h2, if_true] at h
+      simp at h
+      exact ⟨h.1.symm, Or.inl ⟨h2, h.2.symm⟩⟩
+    · simp only [h2, if_false] at h
+      cases hl : f ((trim (s.dropWhile isAsciiDigit)).map toAsciiLower) with
+      | none => simp [hl] at h
+      | some a =>
+        simp [hl] at h
+        exact ⟨h.1.symm, Or.inr ⟨h2, a, h.2.symm, rfl⟩⟩
+
+theorem trim_head (c : Char) (r : List Char) (hc : isWhitespace c = false) :
+    ∃ r', trim (c :: r) = c :: r' := by
+  obtain ⟨ws, ws', hdec, hws, hws'⟩ := trim_decomp (c :: r)
+  cases ws with
+  | cons a t =>
+    simp only [List.cons_append, List.cons.injEq] at hdec
+    have := hws a (by simp)
+    rw [← hdec.1, hc] at this
+    exact absurd this (by simp)
+  | nil =>
+    simp only [List.nil_append] at hdec
+    cases htr : trim (c :: r) with
+    | nil =>
+      rw [htr, List.nil_append] at hdec
+      have := hws' c (by rw [← hdec]; simp)
+      rw [hc] at this
+      exact absurd this (by simp)
+    | cons a t =>
+      rw [htr] at hdec
+      simp only [List.cons_append, List.cons.injEq] at hdec
+      exact ⟨t, by rw [hdec.1]⟩
+
+/-- a text that does not start with an ASCII digit is not a literal -/
+theorem readLit_leading_nondigit {α} (f : List Char → Option α) (s : List Char)
+    (h : s = [] ∨ ∃ c t, s = c :: t ∧ isAsciiDigit c = false) : readLit f s = none := by
+  rw [readLit_eq]
+  have : s.takeWhile isAsciiDigit = [] := by
+    rcases h with rfl | ⟨c, t, rfl, hc⟩
+    · rfl
+    · simp [List.takeWhile, hc]
+  simp [this]
+
+/-- digits followed by a remainder that `f` does not know (after trimming and lower-casing) -/
+theorem readLit_unknown {α} (f : List Char → Option α) (ds rest : List Char) (hds : Digits ds)
+    (hr : ∃ c t, rest = c :: t ∧ isAsciiDigit c = false)
+    (hf : f ((trim rest).map toAsciiLower) = none) : readLit f (ds ++ rest) = none := by
+  obtain ⟨ht, hd⟩ := takeWhile_append isAsciiDigit ds rest hds.2 (Or.inr hr)
+  obtain ⟨c, t, rfl, _⟩ := hr
+  rw [readLit_eq, ht, hd, hf]
+  simp [hds.1]
+
+/-- a remainder whose first non-blank character is not an ASCII letter is no unit word: fractions
+(`.5kb`), signs, digits of other scripts, look-alike blanks -/
+theorem readLit_nonletter {β} (words : List (List Char × β)) (f : List Char → Option β)
+    (hf : ∀ w b, f w = some b → (w, b) ∈ words)
+    (hwl : ∀ e ∈ words, e.1 ≠ [] ∧ ∀ c ∈ e.1, isLowerAlpha c = true)
+    (ds r : List Char) (c : Char) (hds : Digits ds)
+    (hcd : isAsciiDigit c = false) (hcw : isWhitespace c = false) (hca : isAsciiAlpha c = false) :
+    readLit f (ds ++ c :: r) = none := by
+  apply readLit_unknown f ds (c :: r) hds ⟨c, r, rfl, hcd⟩
+  obtain ⟨r', hr'⟩ := trim_head c r hcw
+  cases hfu : f ((trim (c :: r)).map toAsciiLower) with
+  | none => rfl
+  | some b =>
+    exfalso
+    have := (word_alpha words f hf hwl (trim (c :: r)) b hfu).2 c (by rw [hr']; simp)
+    rw [hca] at this
+    exact absurd this (by simp)
+
+theorem fit_u64 (n : Nat) : fit U64_MAX n = if n < 2 ^ 64 then some n else none := by
+  unfold fit U64_MAX
+  by_cases h : n < 2 ^ 64
+  · rw [if_pos h, if_pos (by omega)]
+  · rw [if_neg h, if_neg (by omega)]
+
+theorem fit_i64 (n : Nat) : fit I64_MAX n = if n < 2 ^ 63 then some n else none := by
+  unfold fit I64_MAX
+  by_cases h : n < 2 ^ 63
+  · rw [if_pos h, if_pos (by omega)]
+  · rw [if_neg h, if_neg (by omega)]
+
+theorem visit_int_u64 (n : Int) (h0 : 0 ≤ n) (h1 : n.toNat < 2 ^ 64) :
+    (Scalar.int n).visit = .u64 n.toNat h1 := by
+  simp only [Scalar.visit]; rw [dif_pos ⟨h0, h1⟩]
+
+theorem visit_int_i64 (n : Int) (h0 : n < 0) (h2 : -(2 ^ 63 : Int) ≤ n ∧ n < 2 ^ 63) :
+    (Scalar.int n).visit = .i64 n h2 := by
+  simp only [Scalar.visit]; rw [dif_neg (by omega), dif_pos h2]
+
+theorem visit_int_other (n : Int) (h1 : ¬ (0 ≤ n ∧ n.toNat < 2 ^ 64))
+    (h2 : ¬ (-(2 ^ 63 : Int) ≤ n ∧ n < 2 ^ 63)) : (Scalar.int n).visit = .other := by
+  simp only [Scalar.visit]; rw [dif_neg h1, dif_neg h2]
+
+theorem visitToml_int (n : Int) (h2 : -(2 ^ 63 : Int) ≤ n ∧ n < 2 ^ 63) :
+    (Scalar.int n).visitToml = some (.i64 n h2) := by
+  simp only [Scalar.visitToml]; rw [dif_pos h2]
+
+theorem visitToml_int_none (n : Int) (h2 : ¬ (-(2 ^ 63 : Int) ≤ n ∧ n < 2 ^ 63)) :
+    (Scalar.int n).visitToml = none := by
+  simp only [Scalar.visitToml]; rw [dif_neg h2]
+
+theorem toOpt_eq_some {ε α} (r : Outcome ε α) (a : α) : toOpt r = some a ↔ r = .ok a := by
+  cases r <;> simp [toOpt]
+
+theorem fit_eq_some (max n v : Nat) : fit max n = some v ↔ n ≤ max ∧ v = n := by
+  unfold fit; split <;> simp_all <;> omega
 
 end Log4rs.Literals
